@@ -1278,3 +1278,55 @@ _v("c16-same-job-window", "C16", "mutant", "R16.e", [
     (BAT, "        for operation1, operation2 in itertools.combinations(job, 2):\n            graph.add_edge(operation1, operation2)\n            graph.add_edge(operation2, operation1)\n",
      "        reach = graph.instance.num_machines\n        for position, operation1 in enumerate(job):\n            for operation2 in itertools.islice(job, position + 1, position + 1 + reach):\n                graph.add_edge(operation1, operation2)\n                graph.add_edge(operation2, operation1)\n"),
 ], "round-8 seed C16-z2KE: a window whose width is not the length of the job")
+
+# ------------------------------------------------------------------ round-9 seeds distilled (both ways)
+_SC_INV = "            self._duration_observer = None\n            self._is_ready_observer = None\n            self._current_dispatcher = dispatcher\n"
+mutant("c04-dispatcher-change-forgets-one-cache", "C04", "R04.l", RULES, _SC_INV,
+       "            self._duration_observer = None\n            self._current_dispatcher = dispatcher\n",
+       "round-8/9 seeds C04-z2KC, C04-p2HC: only one of the cached observers is dropped when the dispatcher changes")
+refactor("c04-r-dispatcher-change-positive-test", "C04", RULES,
+         "        if self._current_dispatcher is not dispatcher:\n" + _SC_INV,
+         "        if self._current_dispatcher is dispatcher:\n            pass\n        else:\n" + _SC_INV,
+         "the same invalidation under the complementary test")
+
+mutant("c07-end-time-once-per-operation", "C07", "R07.f", FILT,
+       "            start_time = dispatcher.start_time(op, machine_id)\n            end_times_per_machine[machine_id] = min(\n                end_times_per_machine[machine_id], start_time + op.duration\n            )\n",
+       "            end_time = dispatcher.earliest_start_time(op) + op.duration\n            if end_time < end_times_per_machine[machine_id]:\n                end_times_per_machine[machine_id] = end_time\n",
+       "round-9 seed C07-p2HC: the guard only compares with the entry it replaces; the value is the same for every machine")
+refactor("c07-r-running-minimum-with-guard", "C07", FILT,
+         "            end_times_per_machine[machine_id] = min(\n                end_times_per_machine[machine_id], start_time + op.duration\n            )\n",
+         "            end_time = start_time + op.duration\n            if end_time < end_times_per_machine[machine_id]:\n                end_times_per_machine[machine_id] = end_time\n",
+         "the running minimum spelt with a guard: the value still comes from this machine's start time")
+
+mutant("c14-embedded-instance-name-not-read", "C14", "R14.b", SCH,
+       "            instance = JobShopInstance.from_matrices(**instance)\n",
+       "            instance = JobShopInstance.from_matrices(\n                duration_matrix=instance[\"duration_matrix\"],\n                machines_matrix=instance[\"machines_matrix\"],\n                metadata=instance.get(\"metadata\"),\n            )\n",
+       "round-9 seed C14-p2HF: the schedule's dictionary round trip drops the instance name")
+refactor("c14-r-embedded-instance-read-key-by-key", "C14", SCH,
+         "            instance = JobShopInstance.from_matrices(**instance)\n",
+         "            instance = JobShopInstance.from_matrices(\n                duration_matrix=instance[\"duration_matrix\"],\n                machines_matrix=instance[\"machines_matrix\"],\n                name=instance[\"name\"],\n                metadata=instance.get(\"metadata\"),\n            )\n",
+         "every written key is read")
+
+_SOP_EQ = "        return (\n            self.operation == value.operation\n            and self.start_time == value.start_time\n            and self.machine_id == value.machine_id\n        )\n"
+mutant("c15-identity-shortcut-skips-machine", "C15", "R15.a", SOP, _SOP_EQ,
+       "        if self.start_time != value.start_time:\n            return False\n        if self.operation is value.operation:\n            return True\n        return self.machine_id == value.machine_id and self.operation == value.operation\n",
+       "round-9 seed C15-p1HF: same Operation object on both sides returns True before the machine is compared")
+refactor("c15-r-identity-shortcut-after-machine", "C15", SOP, _SOP_EQ,
+         "        if self.start_time != value.start_time:\n            return False\n        if self.machine_id != value.machine_id:\n            return False\n        if self.operation is value.operation:\n            return True\n        return self.operation == value.operation\n",
+         "the same shortcut once every other field has been compared")
+refactor("c15-r-table-driven-eq", "C15", SOP, _SOP_EQ,
+         "        return all(getattr(self, name) == getattr(value, name) for name in (\"operation\", \"start_time\", \"machine_id\"))\n",
+         "a table of attribute names: the conjunction spelt out by the normaliser")
+
+_MULTI_ACT = "        self.action_space = deepcopy(\n            self.single_job_shop_graph_env.action_space\n        )\n"
+mutant("c18-multi-env-own-action-space-too-small", "C18", "R18.b", ENVM, _MULTI_ACT,
+       "        self.action_space = gym.spaces.MultiDiscrete(\n            [instance_with_max_size.num_jobs, instance_with_max_size.num_machines], start=[0, -1]\n        )\n",
+       "round-9 seed C18-p2HG: the wildcard takes one of the machine slots")
+refactor("c18-r-multi-env-own-action-space", "C18", ENVM, _MULTI_ACT,
+         "        self.action_space = gym.spaces.MultiDiscrete(\n            [instance_with_max_size.num_jobs, instance_with_max_size.num_machines + 1], start=[0, -1]\n        )\n",
+         "the same space as the inner environment of maximum size, declared directly")
+
+mutant("c20-frames-skipped-when-directory-looks-complete", "C20", "R20.c", GIF,
+       "    for i, scheduled_operation in enumerate(schedule_history, start=1):\n        dispatcher.dispatch(",
+       "    if len(os.listdir(frames_dir)) == len(schedule_history):\n        return\n    for i, scheduled_operation in enumerate(schedule_history, start=1):\n        dispatcher.dispatch(",
+       "round-9 seed C20-p1HI: frames of another history of the same length are reused")
